@@ -100,6 +100,7 @@ type Result struct {
 	Samples      []json.RawMessage `json:"samples"`
 	Extra        map[string]any    `json:"extra,omitempty"`
 	Done         bool              `json:"done"`
+	Next         int               `json:"next,omitempty"` // checkpoint: first index not covered
 }
 
 type workerState struct {
@@ -335,4 +336,27 @@ func sortedKeys(m map[string]int64) []string {
 	}
 	sort.Strings(ks)
 	return ks
+}
+
+// SiteOf normalises a Go function name into a finding-key component: a
+// function of the code under test is kept as is; a function of one of its
+// dependencies is reduced to "dep:<package path>" so that the key does not
+// depend on which internal helper of the dependency happened to allocate or
+// crash; anything else (standard library, runtime, harness) yields "".
+func SiteOf(fn string) string {
+	const repo = "github.com/gcash/bchutil"
+	if strings.HasPrefix(fn, repo) {
+		return fn
+	}
+	i := strings.Index(fn, "/")
+	if i < 0 || !strings.Contains(fn[:i], ".") || strings.HasPrefix(fn, "verif/") {
+		return "" // standard library, runtime, harness
+	}
+	// package path = up to the first '.' after the last '/'
+	slash := strings.LastIndex(fn, "/")
+	dot := strings.Index(fn[slash+1:], ".")
+	if dot < 0 {
+		return "dep:" + fn
+	}
+	return "dep:" + fn[:slash+1+dot]
 }
